@@ -56,12 +56,13 @@ func Props(c *Ctx) map[string]*Prop {
 	add := func(p *Prop) { m[p.ID] = p }
 
 	add(&Prop{ID: "C01",
-		Explanation: "Decides the crash and hang side conditions of totality for every path of the current source: every index, slice, type-assertion and division site reachable from ParseCommand(s) and from the lexer goroutines is proved safe by a forward difference-constraint analysis over go/cfg, by a named invariant whose producer is checked, or by a listed reasoned exception (PF1); bail-out panics are typed and not re-panicked for either panicnil setting (PF4); sealed type switches are exhaustive (PF3); goroutine roots always close their channels (CC1). It does not decide wall-clock bounds or termination of the lexer's state machine as a whole.",
+		Explanation: "Decides the crash and hang side conditions of totality for every path of the current source. Crash: every index, slice, type-assertion and division site reachable from ParseCommand(s) and from the lexer goroutines is proved safe by a forward difference-constraint analysis over go/cfg, by a named invariant whose producer rule runs in this same check (GR3 grammar shapes, PU8 printer stack, PF2 quote shape, LAST1), or by a listed reasoned exception (PF1); bail-out panics are typed and not re-panicked for either panicnil setting (PF4); sealed type switches are exhaustive (PF3). Hang: goroutine roots always close their channels (CC1); sends can always be abandoned and the here-document hand-off cannot deadlock (CC4, CC6, GR4); every scanner cycle passes a successful read, a pushed alias or a popped here-document (RC2); an alias is pushed only after a membership test (RC3). It does not decide wall-clock bounds or termination of the lexer's state machine as a whole.",
 		Assumptions: []string{"the goyacc driver template is trusted as generator output", "analysed build configuration: linux/amd64"},
 		Rules: []Rule{
 			pf1Rule("no index, slice, type-assertion or division site reachable from ParseCommand(s) or a lexer goroutine can panic", 80,
 				func(c *Ctx) (map[*core.Func]bool, map[*core.Func]bool) { return c.parseScope() }),
 			rulePF2(), rulePF3("parser", "printer", "ast"), rulePF4("parser"), ruleYY1("parser"), ruleLAST1(), ruleCC1("parser"),
+			ruleGR1("parser"), ruleGR3(), rulePU8(), ruleRC2("parser"), ruleRC3(), ruleCC4("parser"), ruleCC6(), ruleGR4(),
 		}})
 
 	add(&Prop{ID: "C19",
@@ -71,6 +72,7 @@ func Props(c *Ctx) map[string]*Prop {
 			pf1Rule("no index, slice, type-assertion or division site reachable from a downstream entry point can panic", 100,
 				func(c *Ctx) (map[*core.Func]bool, map[*core.Func]bool) { return c.downstreamScope(), nil }),
 			rulePF2(), rulePF3("printer", "interp", "ast", "pattern"), rulePF4("interp"), rulePF5(), ruleYY1("interp"), ruleEF7(), ruleFLD1(), ruleFLD2(), ruleCC1("interp"),
+			ruleGR1("parser", "interp"), ruleGR3(), rulePU8(), ruleTB2(),
 		}})
 	add(&Prop{ID: "C12",
 		Explanation: "Decides the translation-table side of pattern matching: every regular-expression metacharacter (oracle: regexp.QuoteMeta) is escaped or given pattern meaning in each of compile's three contexts, wild cards run in dot-all mode, the alternatives sit in exactly one capture group, anchors follow the mode bits exactly, and no index/slice in Match/compile can panic on any pattern. Which prefix/suffix is selected (shortest/longest) and bracket-expression semantics are value-level and not decided.",
@@ -114,10 +116,48 @@ func Props(c *Ctx) map[string]*Prop {
 	add(&Prop{ID: "C13",
 		Explanation: "Decides the operator × state × nounset × special table of parameter expansion completely: for each of the 624 consistent valuations the outcome of every path of expandParam (value, word expanded, assignment, pattern removal, length, error kind) is extracted from the control-flow graph and compared with POSIX's table, including 'the word is expanded only when it is used' and 'assignment only under = / :=' (DT1); ${#p} counts runes (BR2); operator and special-parameter sets agree across packages (TB8, TB10, TB13); Set discipline (PU6/PU7); no panic (PF1). Field generation for $@ / $*, quoting of results and IFS joins are value-level and not decided.",
 		Assumptions: []string{"POSIX XCU 2.6.2 table frozen in the checker as oracle", "go.sh's documented Arith mode passes plain names through"},
-		Rules: []Rule{ruleDT1(), ruleBR2(), ruleTB8(), ruleTB10(), ruleTB13(), rulePU6(), ruleFLD1(),
+		Rules: []Rule{ruleDT1(), ruleBR2(), ruleTB8(), ruleTB10(), ruleTB13(), rulePU6(), ruleFLD1(), ruleFLD2(), rulePF5(), ruleEF7(), ruleYY1("interp"), rulePF2(), ruleTB2(),
 			pf1Rule("no index/slice/assertion in the expansion functions can panic", 40,
 				func(c *Ctx) (map[*core.Func]bool, map[*core.Func]bool) { return c.scopeOf("interp.(*ExecEnv).Expand"), nil })}})
-	add(&Prop{ID: "DEVT", Explanation: "dev", Rules: []Rule{ruleTB5(), ruleTB6(), ruleTB7(), ruleTB8(), ruleTB10(), ruleTB13(), ruleTB9a("parser", "parser.(*lexer).scanOp", 15)}})
-	add(&Prop{ID: "DEVG", Explanation: "dev", Rules: []Rule{ruleGR1("parser", "interp"), ruleGR2("parser", "interp"), ruleGR3(), ruleGR4(), ruleGR5(), ruleGR6()}})
+	add(&Prop{ID: "C02",
+		Explanation: "Decides only side conditions of 'every grammatical program is accepted': the compiled tables and actions are goyacc's output for the checked-in grammar (GR1), which is conflict-free (GR2); every nonterminal carries the dynamic types its consumers assert and the lists they index are non-empty (GR3); lexer tables and grammar agree on the terminal alphabet and every operator is scanned under its own spelling (GR6, TB9a); a reserved word is translated at every dispatch a raw word can reach (RC5); every closer pushed on the nesting stack is matched somewhere (RC6). That the context-driven lexer hands the right token class in every state, and that the grammar is POSIX's, are language-level claims and are not decided.",
+		Rules: []Rule{ruleGR1("parser"), ruleGR2("parser"), ruleGR3(), ruleGR6(), ruleTB9a("parser", "parser.(*lexer).scanOp", 15), ruleRC5(), ruleRC6()}})
+	add(&Prop{ID: "C04",
+		Explanation: "Decides that columns are counted in characters at every site that manufactures a position (taint from byte lengths/offsets to NewPos, shift and the cursor, BR1) and that End() adds the width of the token actually stored in the field (TB5). That each fixed offset equals the number of characters read since the documented character, containment and ordering of positions are value-level and not decided.",
+		Assumptions: []string{"operator and reserved-word spellings are ASCII (checked against the tables)", "Comment.End is excluded by the property's text"},
+		Rules: []Rule{ruleBR1(), ruleTB5(), ruleGR1("parser")}})
+	add(&Prop{ID: "C07",
+		Explanation: "Decides a necessary condition of 'one call, one command': the newline that ends a command is never consumed silently — the newline-swallowing scanner is called only at grammar linebreak positions and never from the raw token scanner (RC4); and the reader is only touched by read/unread so look-ahead is undone through one place (EF1). Where exactly a command ends is language-level and not decided.",
+		Rules: []Rule{ruleRC4(), ruleEF1(), ruleCC2("parser")}})
+	add(&Prop{ID: "C08",
+		Explanation: "Decides the structure of here-document handling: announce/push/pop protocol and FIFO order (CC6), no look-ahead needed to push (GR4 with GR1), operator-dependent delimiter search, literal body iff the delimiter was quoted, delimiter only at column 1 (HD), no panic in the body reader (PF1). Byte-exact bodies and delimiter matching after quote removal are value-level and not decided.",
+		Rules: []Rule{ruleCC6(), ruleGR1("parser"), ruleGR4(), ruleHD(),
+			pf1Rule("no index/slice/assertion in the here-document reader can panic", 5,
+				func(c *Ctx) (map[*core.Func]bool, map[*core.Func]bool) {
+					s := map[*core.Func]bool{}
+					for _, n := range []string{"parser.(*lexer).lexHeredoc", "parser.(*heredoc).pop", "parser.(*heredoc).push", "parser.(*heredoc).inc", "parser.(*heredoc).exists", "parser.(*lexer).scanRedir"} {
+						if f := c.fn(n); f != nil {
+							s[f] = true
+							for _, l := range f.Lits {
+								s[l] = true
+							}
+						}
+					}
+					return s, s
+				})}})
+	add(&Prop{ID: "C09",
+		Explanation: "Decides only two side conditions of layout inertness: a comment can never make the lexer swallow the newline token (RC4) and comments inside substitutions are merged into the result (CM1, reported by RC6). The metamorphic equalities themselves are not decidable structurally.",
+		Rules: []Rule{ruleRC4(), ruleRC6()}})
+	add(&Prop{ID: "C14",
+		Explanation: "Decides side conditions of field splitting: quoted segments bypass the cutter, are joined as quoted and keep a field alive (SP1), unset IFS means space-tab-newline (SP2), cut offsets advance by the rune's encoded width (BR3), the two parallel slices of a field stay in step (FLD2), no panic in split (PF1). The cutter's state machine itself is value-level and not decided.",
+		Rules: []Rule{ruleSP(), ruleFLD2(),
+			pf1Rule("no index/slice in split can panic", 3,
+				func(c *Ctx) (map[*core.Func]bool, map[*core.Func]bool) { return c.scopeOf("interp.(*ExecEnv).split"), nil })}})
+	add(&Prop{ID: "C15",
+		Explanation: "Decides structural necessary conditions of 'quoted text is literal': quoted parts are joined as quoted and expanded in Quote mode, tilde only on unquoted literals (QU1); single quotes interpret nothing (QU2); the double-quote escape set is POSIX's (TB7); the three pattern-special character sets agree so quoted characters are escaped in Pattern mode (TB4); quoted segments are never split (SP1). The end-to-end identity is value-level and not decided.",
+		Rules: []Rule{ruleQU(), ruleTB7(), ruleTB4(), ruleSP(), rulePF2()}})
+	add(&Prop{ID: "C17",
+		Explanation: "Decides termination and position side conditions of alias substitution: an alias is pushed only after a membership test on the active stack (RC3), only a single unquoted literal can be substituted, assignments are recognised first, and substitution happens only at command-name / alias-continuation positions (AL1); the 'ends in a blank' test uses the scanner's blank set (TB11 in TB7); alias-driven loops are the only non-read-driven cycles (RC2). Equality with textual replacement is language-level and not decided.",
+		Rules: []Rule{ruleRC3(), ruleTB7(), ruleRC2("parser")}})
 	return m
 }
